@@ -6,6 +6,9 @@ CONSTANTS
   Wipes = {}
   Variants = {"asis", "fixed"}
   Cuts = FALSE
+  SectorSize = 32
+  MaxFaults = 1
+  MaxRetry = 1
   Kinds = {"T2", "T1S", "T1D", "T512"}
   Sizes = {1, 3, 5}
   Pads = {0, 1, 2, 3}
@@ -21,4 +24,6 @@ INVARIANT CapSound
 INVARIANT RejectEarly
 INVARIANT FxNoCrash
 INVARIANT CrashOnlyKnown
+INVARIANT Coherent
+INVARIANT SectorSync
 CHECK_DEADLOCK FALSE
